@@ -196,7 +196,7 @@ class ProgGen:
                 x = rnd.random()
                 if x < 0.6:
                     inner.append(w.rfa(t, rnd.choice(self.pids), rnd.choice([1, 2, 3, 5, 7, 0x10, 0x83]),
-                                       kind=rnd.randrange(3), ftype=rnd.randrange(1, 12)))
+                                       kind=rnd.randrange(3), ftype=rnd.randrange(1, 12), q=rnd.choice([0, 0, 3])))
                 elif x < 0.8:
                     inner.append(w.rfau(t))
                 else:
@@ -207,7 +207,7 @@ class ProgGen:
             inner = []
             ranks = rnd.sample(range(0, 12), rnd.choice([0, 1, 2, 3, 4]))
             for i, rk in enumerate(ranks):
-                inner.append(w.img(t, rk, rnd.randrange(1, 50), shared=rnd.random() < 0.3))
+                inner.append(w.img(t, rk, rnd.randrange(1, 50), shared=rnd.random() < 0.3, q=rnd.choice([0, 0, 3])))
                 if rnd.random() < 0.3:
                     inner += self.single(t)
             if ranks and rnd.random() < 0.3:     # equal load address announced by both kinds
@@ -216,11 +216,11 @@ class ProgGen:
         ti, us = rnd.random() < 0.6, rnd.random() < 0.6
         inner = []
         if rnd.random() < 0.7:
-            inner.append(w.uhdr(t, rnd.choice([0, 1, 3, 4, 5, 8, 9, 12])))
+            inner.append(w.uhdr(t, rnd.choice([0, 1, 3, 4, 5, 8, 9, 12]), q=rnd.choice([0, 0, 3])))
         for _ in range(rnd.choice([0, 1, 2, 3])):
-            inner.append(w.udata(t, [rnd.randrange(0, 40) for _ in range(4)]))
+            inner.append(w.udata(t, [rnd.randrange(0, 40) for _ in range(4)], q=rnd.choice([0, 0, 3])))
         if rnd.random() < 0.7:
-            inner.append(w.thd(t, rnd.choice(self.pids), t if rnd.random() < 0.7 else rnd.randrange(1, 5)))
+            inner.append(w.thd(t, rnd.choice(self.pids), t if rnd.random() < 0.7 else rnd.randrange(1, 5), q=rnd.choice([0, 0, 3])))
         if rnd.random() < 0.3:
             rnd.shuffle(inner)
         if rnd.random() < 0.3:
